@@ -58,11 +58,11 @@ func (t *T0x1210) Parse(jtMsg *jt808.JTMessage) error {
 	}
 	cursor := idLen
 	if idLen > 0 {
-		t.TerminalID = string(bytes.Trim(body[0:cursor], "\x00"))
+		t.TerminalID = string(bytes.TrimRight(body[0:cursor], "\x00"))
 	}
 	t.P9208AlarmSign.parse(body[cursor : cursor+alarmSignLen])
 	cursor += alarmSignLen
-	t.AlarmID = string(bytes.Trim(body[cursor:cursor+32], "\x00"))
+	t.AlarmID = string(bytes.TrimRight(body[cursor:cursor+32], "\x00"))
 	cursor += 32
 	t.InfoType = body[cursor]
 	t.AttachCount = body[cursor+1]
